@@ -702,7 +702,10 @@ def gen_c06():
            "PositiveAcknowledgePDU, PromptPDU, KeepAlivePDU over all octets; each also for every "
            "truncation (symbolic cut)")
     R = "c06_arith"
-    add_free(R, "hdr_all", "PDUHeader", "()", 28)
+    # 28 free octets = longest header; the symbolic-cut variant of this one needs > 12 GB, so the
+    # truncations are a separate (thorough) sweep over concrete cuts
+    add_free(R, "hdr_all", "PDUHeader", "()", 28, trunc=False)
+    add_trunc(R, "hdr_trunc", "PDUHeader", "()", [S] * 28, tier="thorough")
     add_free(R, "varid_all", "VariableID", "()", 257)
     add_free(R, "lv_all", "checks::Lv", "()", 256)
     add_free(R, "tmode_all", "TransmissionMode", "()", 1)
